@@ -7,7 +7,7 @@ def parseKind : Nat → Kind
   | 0 => .module | 1 => .function | 2 => .klass | 3 => .lambda | _ => .comp
 
 def parseRole : Nat → Role
-  | 0 => .bind | 1 => .use | 2 => .globalDecl | 3 => .nonlocalDecl | 4 => .param | _ => .defName
+  | 0 => .bind | 1 => .use | 2 => .globalDecl | 3 => .nonlocalDecl | 4 => .param | 6 => .dfltUse | _ => .defName
 
 def parseProg (j : Json) : Prog :=
   { scopes := (arr j "scopes").map fun s =>
